@@ -71,6 +71,13 @@ def _check_function(ctx, obj, bs, ss, tag, x=None, T=None, full=True):
         ctx.eq(tag + 'reload: U*RT = reference', copy.get_UoRT(x=x, T=T) * RT, want)
         ctx.eq(tag + 'reload(reload): G*RT = reference',
                PiecewiseCovEffect.from_dict(copy.to_dict()).get_GoRT(x=x, T=T) * RT, want)
+        # the reloaded object and the dictionary are independent of the original: editing them leaves the original as it was
+        n0 = (len(obj.intervals), len(obj.slopes))
+        copy.insert(1.5, 7.0)
+        d['intervals'].append(2.5)
+        d['slopes'].append(9.0)
+        ctx.true(tag + 'editing a reloaded copy / the dictionary leaves the original unchanged', (len(obj.intervals), len(obj.slopes)) == n0)
+        ctx.eq(tag + 'original still evaluates to the reference after the copy was edited', obj.get_UoRT(x=x, T=T) * RT, want)
 
 
 def _check_lists(ctx, obj, bs, ss, tag):
